@@ -52,6 +52,29 @@ theorem C10_ssa_key_injective (n1 n2 : List Char) (s1 s2 : Option (List Char)) (
 theorem C10_old_ssa_key_counterexample : oldSsaKey ['x'] (some ['0']) = oldSsaKey ['x', '_', '0'] none :=
   oldSsaKey_collision.1
 
+/-- the characters of a Circom identifier (`[$_]*[a-zA-Z][a-zA-Z$_0-9]*`; a superset is enough here) -/
+def isIdentChar (c : Char) : Bool := c.isAlphanum || c == '_' || c == '$'
+def isIdentifier (s : String) : Bool := s.toList.all isIdentChar
+
+/-- The names desugaring invents — `<Template>@<line>_<offset>` for the component of an anonymous component (`Desugar.anonBody`,
+    since the `fix:` after 1121aa8; until then `<Template>_<line>_<offset>`, which a program can also declare: F-C10-generated-names)
+    and `anon_var@<line>_<offset>` for the loop counters (`Desugar`'s `while` arm, since 463752d) — are not identifiers, whatever the
+    template name and the label: no declaration or use written in a program resolves to one of them, or the other way round. -/
+theorem C10_generated_names_fresh (id label : String) :
+    isIdentifier (id ++ "@" ++ label) = false ∧ isIdentifier ("anon_var@" ++ label) = false := by
+  constructor
+  · unfold isIdentifier
+    rw [String.toList_append, String.toList_append, List.all_append, List.all_append]
+    have : ("@" : String).toList.all isIdentChar = false := by decide
+    rw [this]; simp
+  · unfold isIdentifier
+    rw [String.toList_append, List.all_append]
+    have : ("anon_var@" : String).toList.all isIdentChar = false := by decide
+    rw [this]; simp
+
+/-- … while the old form was an identifier whenever the template name is one -/
+example : isIdentifier ("Two" ++ "_" ++ "14_255") = true := by decide
+
 /-- non-vacuity: `f(x) { var y; if (..) { var x; y = x } ; x }` -/
 def exEvents : List Event := [.enter, .decl "y", .use "x", .enter, .decl "x", .use "y", .use "x", .exit, .use "x", .exit]
 example : WellNested 1 (paramEvents ["x"] ++ exEvents) := by simp [WellNested, paramEvents, exEvents]
